@@ -148,6 +148,20 @@ fn tot_case(l: &[Sx]) -> String {
     }
     let _ = e == e2;
     let _ = e == e.clone();
+    // "every environment": the same against the real StaticEnvironment (case-folded keys, the standard library registered, the scripted variables added under their odd names)
+    {
+        let mut senv = StaticEnvironment::default();
+        slac::stdlib::extend_environment(&mut senv);
+        for v in &list(&l[2])[1..] {
+            let p = list(v);
+            senv.add_variable(&string(&p[0]), value(&p[1]));
+        }
+        let _ = check_variables_and_functions(&senv, &e);
+        let _ = execute(&senv, &e);
+        let mut e3 = e.clone();
+        let _ = optimize(&senv, &mut e3);
+        let _ = execute(&senv, &e3);
+    }
     if let Ok(v) = &r {
         let _ = v.partial_cmp(v);
         let _ = v == v;
@@ -550,6 +564,21 @@ fn respell_case(l: &[Sx]) -> String {
             let base = show_res(&execute(&build(None), &e));
             let cn = check_variables_and_functions(&build(None), &e).is_ok();
             let mut ok = true;
+            // C10 on the real StaticEnvironment: accepted by the validator => execute never fails with an unresolved name, and the tree is still accepted after optimize
+            let mut o10 = true;
+            let mut o10_check = |env: &StaticEnvironment, t: &Expression| {
+                if check_variables_and_functions(env, t).is_ok() {
+                    match execute(env, t) {
+                        Err(slac::Error::UndefinedVariable(_)) | Err(slac::Error::NativeFunctionError(_, NativeError::FunctionNotFound(_))) => o10 = false,
+                        _ => {}
+                    }
+                    let mut o = t.clone();
+                    if optimize(env, &mut o).is_ok() && check_variables_and_functions(env, &o).is_err() {
+                        o10 = false;
+                    }
+                }
+            };
+            o10_check(&build(None), &e);
             for (ephase, rphase) in [(Some(0usize), None), (Some(1), None), (None, Some(0usize)), (None, Some(1)), (Some(0), Some(1))] {
                 let e2 = match ephase { Some(p) => respell_expr(&e, p), None => e.clone() };
                 let env2 = build(rphase);
@@ -557,8 +586,9 @@ fn respell_case(l: &[Sx]) -> String {
                 // names inside error payloads are spelled as in the tree: compare modulo case
                 ok &= r2.to_lowercase() == base.to_lowercase() || (r2.starts_with("err:") && base.starts_with("err:") && r2.split(':').nth(1) == base.split(':').nth(1));
                 ok &= check_variables_and_functions(&env2, &e2).is_ok() == cn;
+                o10_check(&env2, &e2);
             }
-            format!("R=compiled ## respell={}", if ok { "holds" } else { "FAILS" })
+            format!("R=compiled ## respell={} O10e={}", if ok { "holds" } else { "FAILS" }, if o10 { "holds" } else { "FAILS" })
         }
     }
 }
